@@ -1,6 +1,41 @@
 """C03 - status queries report exactly what the devices answered, now (DESIGN §5 C03)"""
 import json, vlib, pmcheck
+def foreign_outlet_stage(ctx, V, exe, n):
+    """`a node is shown on/off only if its device reported that for ITS plug`: the device starts every answer with a report about an
+    outlet nobody asked about - an unconfigured name, or a hard-wired plug that carries no node - whose state is the opposite of what the
+    targeted plugs report.  That report must be ignored (the node whose own line is then skipped by a one-line script is `unknown`)."""
+    import random, pmgen
+    scs = []
+    for i in range(n):
+        rng = random.Random(ctx.seed * 32452843 + i)
+        cfg = pmgen.gen_variant_config(rng, ndev=rng.choice([1, 2]))
+        S = [("connect",), ("wait", 0)]
+        reqs = []
+        sc = pmcheck.Scenario(cfg, S, dict(style="c03-foreign", ncli=1))
+        for d in cfg.devs:
+            S.append(("devstate", d.name, "OFF" if i % 2 == 0 else "ON"))
+            unused = [p for p, nn in cfg.truth[d.name].items() if nn is None]
+            names = (unused[:1] if unused and rng.random() < 0.6 else []) + [rng.choice(["zz9", "outlet99", "0"])]
+            S.append(("devprefix", d.name, ["%s %s\n" % (nm, "ON" if i % 2 == 0 else "OFF") for nm in names]))
+        nodes = cfg.all_nodes()
+        for _ in range(rng.randint(2, 4)):
+            tg = sorted(rng.sample(nodes, rng.randint(1, min(3, len(nodes))))) if rng.random() < 0.7 else None
+            line = "status" + (" " + ",".join(tg) if tg else "")
+            S.append(("send", 0, (line + "\r\n").encode())); S.append(("wait", 0))
+            reqs.append(dict(client=0, word="status", line=line, targets=tg if tg else list(nodes)))
+        sc.requests = reqs
+        scs.append(sc)
+    pmcheck.run_batch(ctx, V, exe, scs, ["alive", "c03", "protocol", "wedge"], "c03f")
+    V.count("foreign-outlet-histories", len(scs))
+
+
 def run(ctx, V):
+    import C06, pmsim
+    _run(ctx, V)
+    foreign_outlet_stage(ctx, V, pmsim.build(ctx), 30 if ctx.tier == "quick" else 600)
+
+
+def _run(ctx, V):
     import C06
     pmcheck.standard_run(ctx, V, ["alive", "c03", "protocol", "wedge"], extract=["Extract/ExClient.vo", "Extract/ExEnqueue.vo"], n_quick=500, n_thorough=8000)
     C06.correspond(ctx, V, n=300 if ctx.tier == "quick" else 4000)
